@@ -327,6 +327,11 @@ class Analysis:
                 return ("P", v[1], v[2], keep_len)
             if v[0] == "I":
                 return v
+            if ck.startswith("PointerCoercion") and "Unsize" in ck:
+                ft = self.operand_ty(rv["op"])
+                pt = pointee(ft) if ft else None
+                if pt is not None and pt.get("k") == "array":
+                    return ("P", ("constobj", site), Poly.const(0), self.tenv.length(pt["n"]))
             if v[0] == "B" and is_int_ty(rv["ty"]):
                 return ("I", Poly.atom(("b2i", v[1])))
             if ck == "Transmute":
@@ -531,9 +536,12 @@ class Analysis:
         if fn in ("core::ptr::read", "core::ptr::read_volatile", "core::ptr::read_unaligned"):
             p = ptr()
             if p:
-                if not p[2].t:
-                    return self.read_cell(st, p[1], (), targs[0] if targs else None)
-                return self.init_value(("at", p[1], p[2]), targs[0] if targs else None, "mem")
+                rt = targs[0] if targs else None
+                bt = self.local_ty(p[1][1]) if p[1][0] == "local" else None
+                same = rt is not None and bt is not None and tstr(strip_wrappers(rt)) == tstr(strip_wrappers(bt))
+                if not p[2].t and (same or p[1][0] != "local"):
+                    return self.read_cell(st, p[1], (), rt)
+                return ("V", "mem", (p[1], p[2], tstr(rt) if rt else "?"))
         if fn == "core::cmp::min":
             a, b = self.as_poly(args[0]), self.as_poly(args[1])
             if a is not None and b is not None:
@@ -901,6 +909,47 @@ class Analysis:
         if base[0] == "local":
             return te.size(self.local_ty(base[1]))
         return None
+
+    # ---- dominance -------------------------------------------------------------------------
+    def dominators(self):
+        if getattr(self, "_dom", None) is not None:
+            return self._dom
+        nodes = sorted(self.block_in)
+        preds = {n: set() for n in nodes}
+        for n, succs in self.edges.items():
+            for s2 in succs:
+                if s2 in preds:
+                    preds[s2].add(n)
+        dom = {n: set(nodes) for n in nodes}
+        dom[0] = {0}
+        changed = True
+        while changed:
+            changed = False
+            for n in nodes:
+                if n == 0:
+                    continue
+                ps = [dom[p] for p in preds[n]]
+                new = (set.intersection(*ps) if ps else set()) | {n}
+                if new != dom[n]:
+                    dom[n] = new
+                    changed = True
+        self._dom = dom
+        return dom
+
+    def dominates(self, a, b):
+        """block a dominates block b"""
+        return a in self.dominators().get(b, set())
+
+    def reaches(self, a, b):
+        """b is reachable from a (a != b) along recorded edges."""
+        seen, work = set(), [a]
+        while work:
+            n = work.pop()
+            for s2 in self.edges.get(n, []):
+                if s2 not in seen:
+                    seen.add(s2)
+                    work.append(s2)
+        return b in seen
 
     # ---- queries ---------------------------------------------------------------------------
     def reachable(self, bb):
